@@ -26,14 +26,18 @@ type Faults struct {
 	WrongNumPct int `json:"wrong_num_pct"`           // a valid block of another height is served
 	StalePct    int `json:"stale_pct"`               // latest: an older header of the CURRENT chain
 	ClassErrPct int `json:"class_err_pct,omitempty"` // (feeder-gateway data source) a class fetch fails
-	Budget      int `json:"budget"`                  // at most this many faulty answers per (kind, height); then honest
+	// LIES (the answer is not true of any chain the source ever had):
+	LieLatestPct int `json:"lie_latest_pct,omitempty"` // latest: fabricated hash at a height <= tip / header of a previous epoch's chain / number beyond the chain
+	LieHashPct   int `json:"lie_hash_pct,omitempty"`   // BlockByNumber: a block whose Hash field (and more) is altered — fails verification
+	Budget       int `json:"budget"`                   // at most this many faulty answers per (kind, height); then honest
 	// Rules script particular interleavings (directed scenarios): applied before the random faults.
 	Rules []Rule `json:"rules,omitempty"`
 }
 
 // Rule: while the source is in epoch Epoch, a request for Height fails ("fail"), or its answer is
 // computed at once and handed over only when the node has stored UntilStores blocks ("hold";
-// at most 3 s), or is the (valid) block Height+1 ("wrong-num").
+// at most 3 s), or is the (valid) block Height+1 ("wrong-num"), or is the block with an altered hash
+// ("hash-altered"); "latest-fabricated": BlockHeaderLatest answers (Height, random hash).
 type Rule struct {
 	Height      uint64 `json:"height"`
 	Epoch       int    `json:"epoch"`
@@ -160,6 +164,9 @@ func sleepCtx(ctx context.Context, d time.Duration) error {
 
 func (s *source) BlockByNumber(ctx context.Context, n uint64) (junosync.CommittedBlock, error) {
 	s.rec.active("a BlockByNumber request")
+	if err := ctx.Err(); err != nil { // like an HTTP client: a cancelled context fails the request
+		return junosync.CommittedBlock{}, err
+	}
 	s.mu.Lock()
 	s.inflight++
 	if s.inflight > s.maxInflight {
@@ -199,6 +206,9 @@ func (s *source) BlockByNumber(ctx context.Context, n uint64) (junosync.Committe
 				if int(n)+1 < len(chain) {
 					fault = "rule-wrong-num"
 				}
+			case "hash-altered":
+				fault = "hash-altered"
+				s.hit("rule:hash-altered")
 			case "fail":
 				s.hit("rule:fail")
 				s.mu.Unlock()
@@ -217,6 +227,8 @@ func (s *source) BlockByNumber(ctx context.Context, n uint64) (junosync.Committe
 			fault = "err"
 		case r.Chance(s.faults.CorruptPct, 100):
 			fault = "corrupt"
+		case r.Chance(s.faults.LieHashPct, 100):
+			fault = "hash-altered"
 		case r.Chance(s.faults.WrongNumPct, 100) && len(chain) > 1:
 			fault = "wrong-num"
 		}
@@ -237,6 +249,12 @@ func (s *source) BlockByNumber(ctx context.Context, n uint64) (junosync.Committe
 		var how string
 		b, how = corrupt(chain[n], r)
 		s.hit("corrupt:" + how)
+		valid = false
+		fault = "corrupt:" + how
+	case "hash-altered":
+		var how string
+		b, how = alterHash(chain[n], r)
+		s.hit("lie:" + how)
 		valid = false
 		fault = "corrupt:" + how
 	case "rule-wrong-num":
@@ -299,6 +317,23 @@ func (s *source) BlockHeaderLatest(ctx context.Context) (*core.Header, error) {
 			fault = "err"
 		case r.Chance(s.faults.StalePct, 100) && len(chain) > 1:
 			fault = "stale"
+		case r.Chance(s.faults.LieLatestPct, 100) && len(chain) > 0:
+			fault = lib.Pick(r, []string{"fabricated", "fabricated", "prev-epoch", "beyond"})
+			if fault == "prev-epoch" && epoch == 0 {
+				fault = "fabricated"
+			}
+		}
+	}
+	lieHeight := -1
+	for ri := range s.faults.Rules {
+		ru := &s.faults.Rules[ri]
+		if ru.Action == "latest-fabricated" && ru.Epoch == epoch && (ru.Times == 0 || ru.used < ru.Times) && len(chain) > 0 {
+			// only when the node waits at the tip: that is when isReverting looks at the header
+			if h, ok := s.rec.head(); ok && int(h.num) == len(chain)-1 {
+				ru.used++
+				fault, lieHeight = "fabricated", int(ru.Height)
+				s.hit("rule:latest-fabricated")
+			}
 		}
 	}
 	if len(chain) == 0 {
@@ -323,6 +358,23 @@ func (s *source) BlockHeaderLatest(ctx context.Context) (*core.Header, error) {
 		idx = r.Intn(len(chain) - 1)
 	}
 	h := lib.DeepCopy(chain[idx].Block.Header).(*core.Header)
+	switch fault {
+	case "fabricated":
+		n := r.Intn(len(chain))
+		if lieHeight >= 0 && lieHeight < len(chain) {
+			n = lieHeight
+		}
+		h = lib.DeepCopy(chain[n].Block.Header).(*core.Header)
+		h.Hash = new(felt.Felt).SetBytes(r.Bytes(31))
+	case "prev-epoch":
+		old := s.chains[r.Intn(epoch)]
+		if len(old) > 0 {
+			h = lib.DeepCopy(old[len(old)-1].Block.Header).(*core.Header)
+		}
+	case "beyond":
+		h.Number = uint64(len(chain) + r.Intn(3))
+		h.Hash = new(felt.Felt).SetBytes(r.Bytes(31))
+	}
 	s.hit("latest:ok")
 	s.mu.Unlock()
 	s.rec.add(entry{Kind: eLatest, Num: h.Number, Hash: *h.Hash, Epoch: epoch, Fault: fault})
@@ -360,6 +412,25 @@ func u64s(n uint64) string {
 		n /= 10
 	}
 	return string(b[i:])
+}
+
+// alterHash returns a copy of b that claims another hash (it cannot pass verification): the hash
+// alone, hash and parent hash, or number and hash.
+func alterHash(b *lib.Bundle, r *lib.RNG) (*lib.Bundle, string) {
+	c := b.Clone()
+	nh := new(felt.Felt).SetBytes(r.Bytes(31))
+	c.Block.Hash = nh
+	c.SU.BlockHash = nh
+	switch r.Intn(3) {
+	case 0:
+		return c, "hash"
+	case 1:
+		c.Block.ParentHash = new(felt.Felt).SetBytes(r.Bytes(31))
+		return c, "hash+parent"
+	default:
+		c.Block.Number += 1 + uint64(r.Intn(2))
+		return c, "number+hash"
+	}
 }
 
 // corrupt returns a copy of b with one committed field changed while the block hash is kept.
